@@ -199,6 +199,11 @@ func (ch *channel) SendAndClose(ctx async.Context, data []byte) status.Status {
 // Receive receives and returns a message, or an end status.
 func (ch *channel) Receive(ctx async.Context) ([]byte, status.Status) {
 	for {
+		// Get the wait channel before polling. The queue checks only its first block and discards
+		// a pending notification in ReadWait, a message added between the poll and the wait
+		// would not wake this loop.
+		wait := ch.ReceiveWait()
+
 		// Poll channel
 		data, ok, st := ch.ReceiveAsync(ctx)
 		switch {
@@ -212,7 +217,7 @@ func (ch *channel) Receive(ctx async.Context) ([]byte, status.Status) {
 		select {
 		case <-ctx.Wait():
 			return nil, ctx.Status()
-		case <-ch.ReceiveWait():
+		case <-wait:
 		}
 	}
 }
